@@ -1,9 +1,12 @@
 """Registry of all translators: Gen/<name>.v  <-  function returning Coq text."""
-from translate import ops, gatecode
+from translate import ops, gatecode, wrapper, groupsum
 
 ALL = {
     "Ops": ops.gen_ops,
     "Walsh": ops.gen_walsh,
     "Tables": ops.gen_tables,
     "GateCode": gatecode.gen_gatecode,
+    "WrapperParams": wrapper.gen_wrapper_params,
+    "HostSrc": wrapper.gen_host,
+    "GroupSumSrc": groupsum.gen_groupsum,
 }
